@@ -237,3 +237,30 @@ def ctx_pure(ctx):
                     bad.append('%s.%s: %s' % (p, f['name'], s))
     ctx.check(not bad, 'no-interior-mutability', facts.inherent_method(ORSWOT, 'read'), 'no Cell/RefCell/Mutex/Atomic in any state type',
               'state type with interior mutability: %s' % bad, nontrivial=False)
+
+
+@rule('CTX-LINEAR', {
+    'C07': 'an add context carries the actor\'s next unused dot: if it could be cloned, two ops would share one dot',
+}, floor=2)
+def ctx_linear(ctx):
+    """AddCtx and ReadCtx are neither Clone nor Copy (type facts; the doc-test witnesses show the same from outside)."""
+    facts = ctx.facts
+    for adt in ('crdts::ctx::AddCtx', READCTX):
+        bad = [i['trait'] for i in facts.impls if i['self_key'] == adt and i['trait'] and i['trait'].split('::')[-1] in ('Clone', 'Copy')]
+        b = facts.inherent_method(READCTX, 'derive_add_ctx')
+        ctx.check(not bad, adt.split('::')[-1], b, 'not Clone / Copy', '%s implements %s: a context (and its dot) can be spent twice' % (adt, bad),
+                  nontrivial=False, fnkey=adt)
+
+
+@rule('CTX-ENCAPS', {
+    'C07': 'the replica clock and entries must only change through apply/merge/reset_remove, otherwise contexts stop describing what was applied',
+}, floor=5)
+def ctx_encaps(ctx):
+    """State fields of Orswot, Map, MVReg, List and MerkleReg are not public."""
+    facts = ctx.facts
+    for adt in (ORSWOT, MAP, MVREG, LIST, MERKLE):
+        a = ctx.adt(adt)
+        pub = [f['name'] for f in a['variants'][0]['fields'] if f['vis'] == 'pub']
+        b = facts.trait_impl_method(adt, 'CmRDT', 'apply')
+        ctx.check(not pub, adt.split('::')[-1], b, 'state fields are crate-private', '%s exposes state field(s) %s publicly' % (adt, pub),
+                  nontrivial=False, fnkey=adt)
